@@ -184,6 +184,12 @@ class _AnyId:
         return True
 
 
+class _Super:
+    def __init__(self, obj, cls):
+        self.obj = obj
+        self.cls = cls
+
+
 class _Poison:
     def __init__(self, name):
         self.name = name
@@ -610,6 +616,11 @@ class Ctx:
         return NotImplemented
 
     def getattr_hook(self, I, obj, name, node):
+        if isinstance(obj, _Super):
+            for c in obj.cls.mro()[1:]:
+                if name in c.methods:
+                    return PFunc(c.methods[name], obj.obj)
+            raise Unsupported(f"super().{name} not found")
         fr = getattr(self.contract, "forbid_reads", None)
         if fr and isinstance(obj, PObj) and name in fr and self.callstack:
             # a `reads` obligation: the code under contract must not depend on this attribute
@@ -998,6 +1009,9 @@ class Ctx:
         nm = f.id
         if nm in fr.locals:
             return NotImplemented
+        if nm == "super" and not e.args and fr.func is not None and fr.func.cls is not None:
+            a0 = fr.func.node.args.args[0].arg
+            return _Super(fr.locals[a0], fr.func.cls)
         if nm == "old":
             if "__old__" not in fr.locals:
                 raise Unsupported("old() outside a postcondition")
